@@ -11,6 +11,41 @@ from ..pgm import Domain, GraphicalModel, fs, LETTERS, tracing, near_int, to_ord
 from .c01 import catalogue, build_model, potentials
 
 
+def apportion_problems(df, model, s, V, joint):
+    """Round mode, judged on the whole table (not per call of the rounding routine): column by column in generation order, inside
+    every group of records that agree on the column's conditioning attributes, the count of each value is within 2 of
+    (group size) x P(value | group) - one unit of rounding plus one for an exact integer seen as k - 1e-16 in floating point.
+    The allowance does not depend on the number of rows."""
+    order = list(model.elimination_order)[::-1]
+    cl = [set(c) for c in model.cliques]
+    used = []
+    for col in order:
+        rel = [a for a in used if a in set().union(*[c for c in cl if col in c])]
+        used.append(col)
+        keys = rel + [col]
+        m = np.array(marg_of_joint(V, s["sz"], joint, keys), dtype=object).reshape([s["sz"][a] for a in keys])
+        cnt = np.zeros([s["sz"][a] for a in keys], dtype=np.int64)
+        if len(df):
+            np.add.at(cnt, tuple(df[a].values for a in keys), 1)
+        gshape = tuple(s["sz"][a] for a in rel)
+        gsize = np.asarray(cnt.sum(axis=-1)).reshape(gshape)
+        gw = np.empty(gshape, dtype=object)
+        for g in np.ndindex(*gshape):
+            gw[g] = sum(int(m[g + (v,)]) for v in range(s["sz"][col]))
+        for g in np.ndindex(*gshape):
+            n_g, w_g = int(gsize[g]), int(gw[g])
+            if n_g == 0:
+                continue
+            if w_g == 0:
+                return "%d records in the impossible group %s=%s" % (n_g, rel, g)
+            for v in range(s["sz"][col]):
+                num = n_g * int(m[g + (v,)])            # exact integers: expectation = num / w_g
+                c = int(cnt[g + (v,)])
+                if abs(c * w_g - num) > 2 * w_g:
+                    return ("column %s, group %s=%s (%d records): value %d occurs %d times, expectation %.3f" % (col, rel, g, n_g, v, c, num / w_g))
+    return None
+
+
 def bound_B(model, s):
     """Rounding-error bound, independent of the number of rows: one unit per (group, value) cell of every column."""
     order = list(model.elimination_order)[::-1]
@@ -90,9 +125,12 @@ def run(ctx, canary=False):
     traces = []
     nrun = 0
     budget = 1500 if thorough else 170
-    rows_menu = [1, 2, 7, 100, 10 ** 4] + ([10 ** 6] if thorough else [])
+    rows_menu = [1, 2, 7, 100, 10 ** 4, 10 ** 6]
+    # attributes with 200 and 300 values (codes that do not fit a signed / unsigned byte): replayed only, not model-checked
+    wide_structs = [{"name": "wide%d" % n_, "ord": ["a", "b"], "sz": {"a": n_, "b": 2}, "cliques": [["a", "b"]],
+                     "pots": [{"at": ["a", "b"], "w": [1 + (7 * i_) % 5 for i_ in range(2 * n_)]}]} for n_ in (200, 300)]
     while nrun < budget:
-        s = rng.choice(cat)
+        s = wide_structs[nrun % 2] if nrun < 4 else rng.choice(cat)
         V = s["ord"]
         order = list(V)
         rng.shuffle(order)
@@ -156,6 +194,10 @@ def run(ctx, canary=False):
                     bad.append("records in a zero-probability cell of clique %s" % (cl,))
                 if method == "round" and np.max(np.abs(cnt - exp)) > B + 1e-6:
                     bad.append("clique %s: count differs from expectation by %.1f > bound %d (rows %d)" % (cl, float(np.max(np.abs(cnt - exp))), B, n))
+            if method == "round" and not bad:
+                prob = apportion_problems(df, m, s, V, joint)
+                if prob:
+                    bad.append("round mode: " + prob + " (rows %d; the rounding error must not grow with the number of rows)" % n)
             if method == "sample" and n >= 10000 and not bad:
                 # sampling mode: every PAIR of attributes (also pairs that share no clique) must follow the model's joint. The
                 # allowance of 8 standard deviations + 8 makes a false alarm practically impossible (< 1e-14 per cell); a wrong
